@@ -2,6 +2,7 @@
 // The harness owns COTmrLock/COTmrUnlock: tick-service calls are injected before every lock acquisition,
 // after every release and between calls; COTmrProcess is an independent operation.
 #include "sim/sim.h"
+#include "model/sdo.h"
 using namespace vf;
 
 namespace {
@@ -13,7 +14,7 @@ struct C08 {
   std::vector<Act> m;
   long svc = 0;            // service calls so far == s.tick
   long proc_start = 0;
-  bool in_process = false, with_clear = false;
+  bool in_process = false, with_clear = false, in_reinit = false;
   int budget = 0;          // injections still allowed in the current operation
   int injected = 0, elapsed_deletes = 0, fired = 0, clears = 0, clears_elapsed = 0, far = 0;
   // mode with-clear: some actions play the part of the stack's own timers (their ids are entered in the node structure where COTmrClear looks
@@ -37,6 +38,7 @@ struct C08 {
     s.tick++;
     edge_reset();
     COTmrService(&s.node->Tmr);
+    if (in_reinit) return;   // in the middle of a second CONodeInit the lists are being rebuilt: judged when the call has returned
     std::string e = s.tmr_check(in_process);
     CHECK(c, e.empty(), "pool-conservation", "after the service call of tick %ld (%s): %s", svc, where, e.c_str());
   }
@@ -163,6 +165,47 @@ void case_impl(Ctx &c, bool with_clear) {
   if (x.far) c.cls(x.fired ? "action-2^16..2^32-ticks-away-created-and-callback-fired" : "action-2^16..2^32-ticks-away-created");
   if (x.clears) c.cls("stack-timers-cleared"); if (x.clears_elapsed) c.cls("stack-timer-cleared-while-elapsed-and-unprocessed");
 }
+// mode node-reinit: a complete node whose application initialises the stack a second time without a power cycle (CONodeInit on the same memory, with or
+// without CONodeStop before) while application timers are pending and the hardware timer is armed - the tick interrupt may preempt at every lock
+// boundary inside CONodeInit too; afterwards the timer manager is empty and consistent, and goes on working
+void case_reinit(Ctx &c) {
+  C08 x(c); g = &x;
+  x.s.ntmr = (uint16_t)(1 + c.t.below(c.thorough ? 16 : 6));
+  x.s.nodeid = (uint8_t)(1 + c.t.below(127));
+  World w(x.s); w.mandatory(); w.finish(c.t.coin());
+  x.s.clear_tx(); x.s.clear_ev();
+  x.s.preempt = [&](bool lock) { x.inject(lock); };
+  VLOG(c, "pool=%u, complete node", x.s.ntmr);
+  int steps = 0, reinits = 0, reinits_armed = 0;
+  while (!c.t.exhausted() && steps < 200) {
+    steps++; c.ops++;
+    x.budget = (int)c.t.below(4);
+    static const uint16_t W[6] = {34, 12, 20, 8, 14, 14};
+    uint32_t op = c.t.weighted(W);
+    if (op == 0) { x.create(c.t.below(5), c.t.below(4)); x.after_op("create"); }
+    else if (op == 1) { std::vector<int> act; for (auto &a : x.m) if (a.active) act.push_back(a.id); int id = !act.empty() && c.t.chance(200) ? act[c.t.below((uint32_t)act.size())] : (int)c.t.below(x.s.ntmr + 2) - 1; x.del(id); x.after_op("delete"); }
+    else if (op == 2) { uint32_t n = 1 + c.t.below(3); VLOG(c, "%u service call(s)", n); for (uint32_t i = 0; i < n; i++) x.one_service("between calls"); }
+    else if (op == 3) { uint32_t n = std::min<uint32_t>(x.s.tcnt ? x.s.tcnt : 1, 40); for (uint32_t i = 0; i < n; i++) x.one_service("between calls"); }
+    else if (op == 4) { x.process(); x.after_op("process"); }
+    else {
+      bool stop = c.t.coin(); bool armed = x.s.tcnt > 0;
+      VLOG(c, "%sCONodeInit on the same memory (%d action(s) pending, hardware timer %s) ...", stop ? "CONodeStop, " : "", x.nactive(), armed ? "armed" : "idle");
+      x.in_reinit = true;
+      if (stop) { x.s.api_begin(); CONodeStop(x.s.node); x.s.api_end("CONodeStop"); }
+      x.s.reinit();
+      x.in_reinit = false;
+      for (auto &a : x.m) a.active = false;     // the timer manager starts afresh: nothing is pending, nothing will fire
+      x.s.clear_tx(); x.s.clear_ev(); reinits++; if (armed) reinits_armed++;
+      x.after_op("the second CONodeInit");
+      CHECK(c, x.s.tcnt == 0, "pool-conservation", "after the second CONodeInit nothing is pending, but the hardware timer is armed with %u tick(s)", x.s.tcnt);
+    }
+  }
+  x.budget = 0; x.process(); x.after_op("final process");
+  if (x.injected > 0 || reinits_armed > 0) c.nontrivial = true;
+  if (x.injected) c.cls("service-injected-at-lock-boundary");
+  if (reinits) c.cls("second-initialisation-on-the-same-memory"); if (reinits_armed) c.cls("second-initialisation-with-the-hardware-timer-armed");
+  if (x.fired) c.cls("callback-fired");
+}
 void case_random(Ctx &c) { case_impl(c, false); }
 void case_clear(Ctx &c) { case_impl(c, true); }
 
@@ -171,11 +214,12 @@ Registrar reg(Prop{
     "Cases are task-level operation sequences {create, delete (biased to elapsed-but-unprocessed actions), service ticks, process} on the real timer manager (pool 1..6, 1..16 in thorough) together with a schedule: "
     "at every preemption point the harness owns (before each COTmrLock acquisition, after each COTmrUnlock release, between calls) the tape decides how many tick-service calls preempt (0, 1, 2, until-next-expiry). "
     "Mode with-clear adds COTmrClear (what an NMT reset and CONodeStop call): half of the created actions are entered in the node structure as the stack's own timers (heartbeat producer, TPDO event/inhibit, a heartbeat consumer, SYNC producer); COTmrClear must cancel exactly those - pending or elapsed-but-unprocessed - forget their ids, and leave the application's actions alone. "
-    "Mode far-and-near: a quarter of the created actions lie around 2^16, 2^31 or 2^32-1 ticks ahead. Oracle: interval reference model (admissible due window per expiry) + pool walk after every call and every injected service. "
+    "Mode node-reinit: a complete node; the application initialises the stack a second time on the same memory (CONodeStop or not, then CONodeInit) while application timers are pending and the hardware timer is armed, with preemption at the lock boundaries inside CONodeInit as well; afterwards nothing is pending, the pool is whole and the manager goes on working. Mode far-and-near: a quarter of the created actions lie around 2^16, 2^31 or 2^32-1 ticks ahead. Oracle: interval reference model (admissible due window per expiry) + pool walk after every call and every injected service. "
     "Non-trivial: at least one service call was injected at a lock boundary, or a delete hit an elapsed-but-unprocessed action. Distinct = distinct decoded choice sequence.",
     {Mode{"random", case_random, false, 3000000, 100000000, 0, 0, 260, 500},
      Mode{"with-clear", case_clear, false, 800000, 20000000, 0, 0, 260, 500},
-     Mode{"far-and-near", case_random, false, 500000, 10000000, 1, 1, 260, 500}},
+     Mode{"far-and-near", case_random, false, 500000, 10000000, 1, 1, 260, 500},
+     Mode{"node-reinit", case_reinit, false, 300000, 6000000, 0, 0, 260, 500}},
     {"the tick service is never injected while the lock is held (that is the contract COTmrLock/COTmrUnlock implement)",
      "timer driver = down counter as in drv_timer_swcycle.c",
      "while COTmrProcess runs, actions being dispatched may be linked nowhere: action-slot conservation is then checked as an upper bound, time-slot conservation exactly"}});
